@@ -679,7 +679,7 @@ func main() {
 		runShard(c, curves, jobs, shard)
 		c.WorkerDone()
 	}
-	c.Rule("P: circuits = all wire lists (inputs first, then gates over earlier wires; gates add, sub, mul, neg, identity, a registered custom degree-3 gate x*y*y+x; add/mul with one argument order; every input used; <= 2 distinct consumers per wire; inputs numbered by first use) x instances {1,2,4,8} x dependency pattern between instances (none / forward chain / backward chain / single / fan-in from instance 0: the first input of an instance is fed by the last wire of another) x Fiat-Shamir hash. quick (bn254): all circuits <= 3 wires x all instance counts x all dependency patterns with MiMC (5 input patterns) and, for 2 instances, with the constant pseudo-hash; all 4-wire circuits with 2 instances, no dependency, constant pseudo-hash, 2 input patterns; 4-wire circuits over add/mul/cubic also with the backward chain (2 instances) and with MiMC on 4 instances in a forward chain. thorough: bn254: the full product for <= 4 wires with MiMC, the constant pseudo-hash for 2 instances; bls12-377: <= 3 wires full product with MiMC, Poseidon2 and the constant pseudo-hash, 4 wires with 2 and 4 instances (none / forward / backward) with MiMC; 5 patterns. Each case: one compile of the outer circuit (delegation + the same gates with plain api calls + equality for every instance; initial challenge = commitment to all inputs and exported values), one solve per input pattern (pattern j gives slot (w,i) the value #(2w+i+j mod 5) of {0,1,2,p-1,generic}; the expected values come from a big.Int reference), one solve with an expected value off by one. E (MiMC): per case the genuine outputs of the solve hint (each: +1, -1, swapped with the next instance) and of the prove hint (each: +1, -1, swapped with the next element, 0) are choice points of an explorer; the outer circuit contains only delegation + commitment + GKR verifier. quick: 2-wire circuits x {2,4} instances x {none, forward, backward}: all combinations of <= 2 departures; 3-wire circuits, 2 instances: single departures without dependency and with the backward chain; 3-wire circuits over add/mul/cubic without dependency also pairs containing an exported-value departure; for 2 instances, one output wire, no dependency additionally the weak-Fiat-Shamir adversary (exported vector shifted along the kernel of the evaluation at the first challenge, that challenge computed with / without the initial challenge). thorough: <= 3 wires x 2 instances and 2 wires x 4 instances x {none, forward, backward}: all pairs; 3 wires x 4 instances (none / backward): pairs containing an exported-value departure; 4-wire add/mul/cubic circuits x 2 instances (none / backward): single departures. distinct = (sub-check, curve, wires, instances, dependency, hash, verdict).")
+	c.Rule("P: circuits = all wire lists (inputs first, then gates over earlier wires; gates add, sub, mul, neg, identity, a registered custom degree-3 gate x*y*y+x; add/mul with one argument order; every input used; <= 2 distinct consumers per wire; inputs numbered by first use) x instances {1,2,4,8} x dependency pattern between instances (none / forward chain / backward chain / single / fan-in from instance 0: the first input of an instance is fed by the last wire of another) x Fiat-Shamir hash; in addition EXPLICIT dependency patterns: every acyclic assignment of 'explicit value or last wire of another instance' to the (input wire, instance) slots up to an edge bound (quick: one-input circuit x 4 instances: all 125 forests; two-input mul circuit: 2 instances all, 4 instances <= 2 edges; two-input add circuit 4 instances <= 2 edges; thorough: two-input circuit x 4 instances without edge bound, 8 instances <= 2 edges, bls12-377); a solve that does not return within 2 minutes is reported as a hang. quick (bn254): all circuits <= 3 wires x all instance counts x all dependency patterns with MiMC (5 input patterns) and, for 2 instances, with the constant pseudo-hash; all 4-wire circuits with 2 instances, no dependency, constant pseudo-hash, 2 input patterns; 4-wire circuits over add/mul/cubic also with the backward chain (2 instances) and with MiMC on 4 instances in a forward chain. thorough: bn254: the full product for <= 4 wires with MiMC, the constant pseudo-hash for 2 instances; bls12-377: <= 3 wires full product with MiMC, Poseidon2 and the constant pseudo-hash, 4 wires with 2 and 4 instances (none / forward / backward) with MiMC; 5 patterns. Each case: one compile of the outer circuit (delegation + the same gates with plain api calls + equality for every instance; initial challenge = commitment to all inputs and exported values), one solve per input pattern (pattern j gives slot (w,i) the value #(2w+i+j mod 5) of {0,1,2,p-1,generic}; the expected values come from a big.Int reference), one solve with an expected value off by one. E (MiMC): per case the genuine outputs of the solve hint (each: +1, -1, swapped with the next instance) and of the prove hint (each: +1, -1, swapped with the next element, 0) are choice points of an explorer; the outer circuit contains only delegation + commitment + GKR verifier. quick: 2-wire circuits x {2,4} instances x {none, forward, backward}: all combinations of <= 2 departures; 3-wire circuits, 2 instances: single departures without dependency and with the backward chain; 3-wire circuits over add/mul/cubic without dependency also pairs containing an exported-value departure; for 2 instances, one output wire, no dependency additionally the weak-Fiat-Shamir adversary (exported vector shifted along the kernel of the evaluation at the first challenge, that challenge computed with / without the initial challenge). thorough: <= 3 wires x 2 instances and 2 wires x 4 instances x {none, forward, backward}: all pairs; 3 wires x 4 instances (none / backward): pairs containing an exported-value departure; 4-wire add/mul/cubic circuits x 2 instances (none / backward): single departures. distinct = (sub-check, curve, wires, instances, dependency, hash, verdict).")
 	c.Assume("Fiat-Shamir hash MiMC behaves as a random oracle (a forged run is accepted with negligible probability); the commitment placeholder is replaced by a hash of the committed values (hintenv.CommitHash)",
 		"the constant pseudo-hash '-20' of gnark's own tests is used for honest runs only",
 		"hash names are registered by the harness (the library registers none by default): mimc on both sides for bn254 / bls12-377, poseidon2 for bls12-377")
